@@ -61,11 +61,11 @@ type Fault struct {
 }
 
 type Step struct {
-	Op     string     `json:"op"` // add
-	Tree   *FileSpec  `json:"tree,omitempty"`
-	Faults []Fault    `json:"faults,omitempty"`
-	FailAlloc int     `json:"fail_alloc,omitempty"` // k-th BlockAllocate fails (1-based; 0 none)
-	FailPin   int     `json:"fail_pin,omitempty"`   // k-th Cluster.Pin fails
+	Op        string    `json:"op"` // add
+	Tree      *FileSpec `json:"tree,omitempty"`
+	Faults    []Fault   `json:"faults,omitempty"`
+	FailAlloc int       `json:"fail_alloc,omitempty"` // k-th BlockAllocate fails (1-based; 0 none)
+	FailPin   int       `json:"fail_pin,omitempty"`   // k-th Cluster.Pin fails
 }
 
 type H struct{}
@@ -189,22 +189,23 @@ type dest struct {
 }
 
 type world struct {
-	run    *simkit.Run
-	plan   *simkit.Plan
-	net    *simkit.Net
-	dests  []*dest
-	mu     sync.Mutex
-	putN   map[string]int // block cid -> global put index
-	putLog map[string][]string
-	nextPut int
-	faults map[string]string // "block|dest" -> kind
-	allocs [][]peer.ID
-	allocN int
-	pins   []*api.Pin
-	pinN   int
+	run                *simkit.Run
+	plan               *simkit.Plan
+	net                *simkit.Net
+	dests              []*dest
+	mu                 sync.Mutex
+	putN               map[string]int // block cid -> global put index
+	putLog             map[string][]string
+	nextPut            int
+	faults             map[string]string // "block|dest" -> kind
+	allocs             [][]peer.ID
+	allocN             int
+	pins               []*api.Pin
+	pinN               int
 	failAlloc, failPin int
-	npeers int
-	rmin, rmax int
+	rpcFaults          int // destinations whose link is cut during the add
+	npeers             int
+	rmin, rmax         int
 }
 
 type clusterSvc struct{ w *world }
@@ -373,6 +374,11 @@ func (H) Execute(t *testing.T, plan *simkit.Plan, run *simkit.Run) {
 		}
 	}
 	w.net.ConnectAll()
+	// let the connections settle (identify exchanges its streams right after a
+	// connection is made; a call racing with that can see its stream reset): the
+	// peers of a cluster have been connected for a long time when content is added
+	time.Sleep(500 * time.Millisecond)
+	synctest.Wait()
 	defer func() {
 		w.net.Close()
 		synctest.Wait()
@@ -390,6 +396,7 @@ func (H) Execute(t *testing.T, plan *simkit.Plan, run *simkit.Run) {
 		if f.Kind == "rpc" {
 			if d != 0 {
 				rpcCut[d] = f.Block
+				w.rpcFaults++
 			}
 			continue
 		}
@@ -502,7 +509,7 @@ func (p *plainDAG) Finalize(ctx context.Context, root cid.Cid) (cid.Cid, error) 
 func (w *world) judge(params *api.AddParams, tree *FileSpec, root cid.Cid, err error, refRoot cid.Cid, ref *store) {
 	run := w.run
 	ctx := context.Background()
-	injected := len(w.faults) > 0 || w.failAlloc > 0 || w.failPin > 0
+	injected := len(w.faults) > 0 || w.failAlloc > 0 || w.failPin > 0 || w.rpcFaults > 0
 	rootPinned := func() *api.Pin {
 		for _, p := range w.pins {
 			if (p.Type == api.DataType || p.Type == api.MetaType) && p.Cid.Equals(refRoot) {
@@ -632,6 +639,17 @@ func (w *world) judge(params *api.AddParams, tree *FileSpec, root cid.Cid, err e
 				run.Violate("C13/pin_allocations_differ", "", "blocks were sent to %v but the root is pinned with allocations %v", idx(w.allocs[0]), idx(p.Allocations))
 			}
 		}
+		if !injected && !params.Local && len(w.allocs) >= 1 {
+			for c := range seen {
+				for _, p := range w.allocs[0] {
+					if !w.holds(p, c) {
+						run.Violate("C13/block_not_on_allocation", "single", "block %s of the content was not delivered to allocated peer %v (it was put on %v)", c[len(c)-6:], idx([]peer.ID{p}), w.putLog[c])
+						break
+					}
+				}
+			}
+			run.Probe("blocks_on_allocations_checked")
+		}
 		run.Probe("single_pin_checked")
 		return
 	}
@@ -694,6 +712,19 @@ func (w *world) judge(params *api.AddParams, tree *FileSpec, root cid.Cid, err e
 			run.Violate("C13/shard_unreadable", "", "shard %s: %v", l.Cid, derr)
 			continue
 		}
+		// without faults every block a shard links sits on every peer the shard is
+		// allocated to (that is where pinning the shard will look for it)
+		if si := shardOrder[l.Cid.String()]; !injected && !params.Local && si < len(w.allocs) {
+			for _, c := range leaves {
+				for _, p := range w.allocs[si] {
+					if !w.holds(p, c) {
+						run.Violate("C13/block_not_on_allocation", "shard", "block %s is linked by shard #%d, allocated to %v, but was not delivered to peer %v (it was put on %v)", c[len(c)-6:], si, idx(w.allocs[si]), idx([]peer.ID{p}), w.putLog[c])
+						break
+					}
+				}
+			}
+			run.Probe("shard_blocks_on_allocations_checked")
+		}
 		if int(sp.MaxDepth) < depth {
 			run.Violate("C13/shard_depth_too_small", fmt.Sprintf("depth=%d maxdepth=%d", depth, sp.MaxDepth), "shard %s is pinned with max depth %d but its links are %d levels deep (%d links): pinning it does not cover its blocks", short(l.Cid), sp.MaxDepth, depth, len(leaves))
 		}
@@ -717,6 +748,19 @@ func (w *world) judge(params *api.AddParams, tree *FileSpec, root cid.Cid, err e
 	// (shards may also link blocks that are not in the final DAG: directory
 	// nodes the importer emitted before they were complete are delivered too)
 	run.Probe("sharded_pins_checked")
+}
+
+// holds reports whether destination peer p has block c in its own store.
+func (w *world) holds(p peer.ID, c string) bool {
+	for i := range w.dests {
+		if simkit.TestPeer(i) == p {
+			w.dests[i].mu.Lock()
+			_, ok := w.dests[i].blocks[c]
+			w.dests[i].mu.Unlock()
+			return ok
+		}
+	}
+	return false
 }
 
 func (w *world) anyCut() bool {
